@@ -128,7 +128,25 @@ def r_row_perm(c):
         o2 = A2(t64(J[perm])).numpy()
         tol = 1e-4 if c["agg"] in ("cagrad",) else 1e-6
         return dict(reproduced=not close(o1, o2, tol, scale=np.abs(J).max()), out=o1.tolist(), out_permuted=o2.tolist(), J=J.tolist())
-    return scale_ladder(run, gram_to_matrix(c["G"]))
+    first = scale_ladder(run, gram_to_matrix(c["G"]))
+    if first.get("reproduced") or c["agg"] != "imtlg" or vec is not None:
+        return first
+    # a singular Gramian in the model's counterexample: on small exactly-singular matrices a direct solver fails cleanly and the code falls back, so a
+    # fault of that kind shows only where rounding hides the singularity - rank-deficient integer matrices with more rows, every row order
+    rng = np.random.default_rng(7)
+    for trial in range(40):
+        B = rng.integers(-2, 3, size=(2, 3)).astype(float)
+        C = rng.integers(-2, 3, size=(4, 2)).astype(float)
+        Jr = C @ B  # 4 x 3, rank <= 2
+        if np.linalg.matrix_rank(Jr) < 2 or np.any(np.linalg.norm(Jr, axis=1) == 0):
+            continue
+        base = make_agg("imtlg", 4, None, None)(t64(Jr)).numpy()
+        for pm in itertools.permutations(range(4)):
+            op = make_agg("imtlg", 4, None, None)(t64(Jr[list(pm)])).numpy()
+            if not close(base, op, 1e-6, scale=np.abs(Jr).max()):
+                return dict(reproduced=True, out=base.tolist(), out_permuted=op.tolist(), J=Jr.tolist(), perm=list(pm),
+                            found_by="rank-deficient integer matrices with 4 rows (the model's counterexample has a singular Gramian)")
+    return first
 
 
 @handler("row_perm_entry")
@@ -229,17 +247,26 @@ def r_impartial(c):
         J = np.asarray(arr(c["J"]), dtype=float)
         m = J.shape[0]
         pref = c.get("pref")
-        out = make_agg("config", m, None, pref)(t64(J)).numpy()
         u = np.asarray(arr(pref), dtype=float) if pref is not None else np.ones(m)
-        cos = (J @ out) / (np.linalg.norm(J, axis=1) * max(np.linalg.norm(out), 1e-300))
-        bad = []
-        if np.any(cos <= 0):
-            bad.append(f"non-positive cosine {cos.tolist()}")
-        r = cos / u
-        if np.max(np.abs(r - r[0])) > 1e-6 * max(1.0, abs(r[0])):
-            bad.append(f"cosines not proportional to the preferences: {cos.tolist()}")
-        if abs(np.linalg.norm(out) - float((J @ out).sum() / max(np.linalg.norm(out), 1e-300))) > 1e-6 * max(1.0, np.linalg.norm(out)):
-            bad.append("length is not the sum of the projections")
+        def clause(dt, tol):
+            A = make_agg("config", m, None, pref)
+            if dt is torch.float32:
+                A = make_agg("config", m, None, None) if pref is None else __import__("torchjd.aggregation", fromlist=["ConFIG"]).ConFIG(pref_vector=torch.tensor(u, dtype=torch.float32))
+            out = A(torch.tensor(J, dtype=dt)).double().numpy()
+            cos = (J @ out) / (np.linalg.norm(J, axis=1) * max(np.linalg.norm(out), 1e-300))
+            bad = []
+            if not np.all(cos > 0):
+                bad.append(f"non-positive cosine {cos.tolist()} ({dt})")
+            r = cos / u
+            if not np.max(np.abs(r - r[0])) <= tol * max(1.0, abs(r[0])):
+                bad.append(f"cosines not proportional to the preferences: {cos.tolist()} ({dt})")
+            if not abs(np.linalg.norm(out) - float((J @ out).sum() / max(np.linalg.norm(out), 1e-300))) <= tol * max(1.0, np.linalg.norm(out)):
+                bad.append(f"length is not the sum of the projections ({dt})")
+            return bad, out
+        # the model runs in float32 (dtype-dependent constants such as finfo(dtype).eps take their float32 values there): both dtypes are tried
+        bad, out = clause(torch.float64, 1e-6)
+        if not bad and np.all(np.abs(u) > 0) and np.linalg.cond(J) < 1e3:
+            bad, out = clause(torch.float32, 1e-3)
         return dict(reproduced=bool(bad), why=bad, out=out.tolist())
     if agg == "alignedmtl":
         pref = c.get("pref")
